@@ -258,4 +258,23 @@ PROPS = {
         "level_text": "Exploration over the available symmetric diagrams x parameters x listing orders (thousands of runs): the cone definition is checked against an independent construction, the invariants through their stated relations. Right level given that the input family is a finite table plus reorderings.",
         "level_note": "Trusts the own cube and the induced involution (the oracle self-checks that tau maps circles to circles and preserves degree).",
     },
+    "C20": {
+        "budget_s": {"quick": 150, "thorough": 2400},
+        "floor": {"quick": 500, "thorough": 10000},
+        "need_ykh": True,
+        "rule": "seeded samples of the product {kh, ckh} x -t {Z,Q,F2,F3,(absent)} x -c {absent, '', 0, 1, 2, -3, '0,1', '1,1', '2,0', H, '0,T', 'H,T', T, 'H,0', foo, '1,', '2,3,4', '0,0,junk', 'H,T,7', ',1'} x {-m} x {-r} x "
+                "LINK {3_1, 4_1, 5_2, 6_2, 7_7, L2a1, L6n1, PD JSON of knots / Hopf / L6n1, [], [[0,0,1,1]]; and the error inputs foo, %%%, [[1,2,3]], [[1,2,3,4]] (structurally invalid), 3_1x, unbalanced JSON}; "
+                "the real ykh binary built from the tree is run per sample; for supported combinations the stdout table is parsed independently (fields = runs of >= 2 spaces; cell -> ring symbol, rank, multiset of torsion strings; '.' / '0' = zero cell) "
+                "and compared in both directions with KhHomology / KhComplex::gen_grid computed in-process over the ring implied by (-t,-c) (own dispatch table, own -c splitting rule): kh always cell by cell; "
+                "ckh cell by cell for h=t=0 and through the (graded) Euler characteristic otherwise, because the simplified complex is not canonical for deformations; unsupported ring for kh (Z[H], any [H,T]), reduced with t != 0, "
+                "malformed -c, bad link input and library panics must give exit != 0, a message on stderr and no table on stdout; non-trivial = non-default option or an error class; distinct = hash(argv)",
+        "assumptions": COMMON_ASSUME + [
+            "the expectation for a supported combination is the library called in-process with the same parameters (the property is about the command reporting the library's result; C01-C05 tie the library to the mathematics)",
+            "ckh with numeric deformation prints a run-dependent (hash-order dependent) simplified complex even on the unchanged tree; only homotopy-invariant quantities are compared there",
+            "negative -c values are passed as -c=<v> (clap convention)",
+        ],
+        "technique": "reference-model monitor on the real binary: subprocess runs over sampled option combinations, independent table parser, in-process library call as the model, error-path oracle (status, stderr, no table)",
+        "level_text": "Exploration of the option product: about a thousand (quick) to tens of thousands of real invocations covering every -t/-c class, both commands, flags and all error classes; supported outputs are decided cell by cell against the library, error paths by status/stderr/stdout. Right level: a finite-but-large configuration product observed at the process boundary.",
+        "level_note": "Trusts the in-process library as the model for supported combinations (by the statement) and the own parser.",
+    },
 }
